@@ -41,6 +41,17 @@ fn common_den(vals: &[f64]) -> Option<i64> {
         }
         return Some(d);
     }
+    // dyadic data below 1/720: powers of two up to 2^20 (costs and entries of size 1e-6)
+    'pow: for k in 10..=20 {
+        let d = 1i64 << k;
+        for v in vals {
+            let s = v * d as f64;
+            if (s - s.round()).abs() > 1e-7 * (1.0 + s.abs()) {
+                continue 'pow;
+            }
+        }
+        return Some(d);
+    }
     None
 }
 
@@ -52,7 +63,7 @@ pub fn begin_from_snapshot(run: &str, mode: &str, s: &Snapshot) -> Option<Value>
     vals.push(s.current_value);
     let d = common_den(&vals)?;
     let int = |x: f64| (x * d as f64).round() as i64;
-    if vals.iter().any(|v| (v * d as f64).abs() > 1.0e6) {
+    if vals.iter().any(|v| (v * d as f64).abs() > 2.2e6) {
         return None;
     }
     Some(json!({
